@@ -375,6 +375,7 @@ def canon(path):
 
 
 MAX_NAME = 256
+MAX_NESTING = 4096         # SQFS_MAX_DIR_NESTING (include/sqfs/dir.h): directories nested deeper are refused by the packers
 
 
 class Oracle:
@@ -409,6 +410,8 @@ class Oracle:
             n = self.nodes.get(p)
             if n is None:
                 self.check_name(comps[i - 1])
+                if i > MAX_NESTING:
+                    raise Refuse("nesting-too-deep", "%d levels" % i)
                 self.nodes[p] = Exp(p, "dir", self.dmode, self.uid(self.du), self.gid(self.dg), self.dm, implicit=True, tags=["implicit"])
             elif n.type != "dir":
                 raise Refuse("parent-not-dir", s(p))
@@ -435,6 +438,8 @@ class Oracle:
             return node
         self.ensure_parents(comps)
         self.check_name(comps[-1])
+        if node.type == "dir" and len(comps) > MAX_NESTING:
+            raise Refuse("nesting-too-deep", "%d levels" % len(comps))
         p = self.pjoin(comps)
         old = self.nodes.get(p)
         if old is not None:
